@@ -34,7 +34,7 @@ def answerPca (fs : List (String × String)) : String :=
           get "Y" >>= parseMat N d with
     | some X, some mean, some cov, some pre, some V, some lam, some P, some mu, some Y =>
       let μD := DVec.ofFn (computeMean X.get)
-      let CU := covarianceUpperD X μD                     -- what the code builds (upper triangle only)
+      let CU := covarianceMatrixD X μD                    -- what the code builds (both triangles, mirrored)
       let C := covD X                                      -- the true sample covariance, from the raw data
       let scaleC := maxAbsM C.get
       let lamMax := maxAbsM (vecAsMat lam.get)
